@@ -216,6 +216,37 @@ def sub_enum(acc: Acc, shard: int, nshards: int, tier: str, seed: int) -> None:
     acc.extra["enumeration_alphabet"] = ALPHABET
 
 
+ROOTS = [
+    # (prefix, alphabet of the enumerated suffix): the scalar forms whose shortest interesting inputs are longer than
+    # the flat enumeration reaches (a block scalar needs 'k: |\n a' = 7 characters before anything happens)
+    ("k: |\n", " a\n#"), ("k: >\n", " a\n#"), ("k: |-\n", " a\n"), ("k: |+\n", " a\n"), ("k: >-\n", " a\n"),
+    ("k: >+\n", " a\n"), ("k: |1\n", " a\n"), ("k: |2\n", " a\n"), ("k: >1-\n", " a\n"), ("k: | #c\n", " a\n"),
+    ("k: |\n a\n", " b\n:"), ("k: >\n a\n", " b\n:"), ("k: |\n  a\n", " b\n"), ("k: >\n\n  a\n", " b\n"),
+    ('k: "', 'a \n\\"'), ("k: '", "a \n'#"), ('k: "a\n', ' b\n\\"'), ("k: 'a\n", " b\n'"),
+    ("k: a", " b\n#:"), ("k: a\n", " b\n#:"), ("k:\n", " a\n:#"), ("k: a\nj: ", "b \n|>'"), ('k: "\\', 'xuU0aF "\n'),
+]
+
+
+def sub_enum_rooted(acc: Acc, shard: int, nshards: int, tier: str, seed: int) -> None:
+    maxlen = 5 if tier == "quick" else 7
+    kn = known()
+    i = 0
+    for prefix, alpha in ROOTS:
+        for n in range(maxlen + 1):
+            for tup in itertools.product(alpha, repeat=n):
+                i += 1
+                if i % nshards != shard:
+                    continue
+                text = prefix + "".join(tup)
+                for v in check_text(acc, text):
+                    if kn.matches(v):
+                        acc.known_hits[v["signature"]] += 1
+                    elif len(acc.violations) < 8 and all(v["signature"] != w["signature"] for w in acc.violations):
+                        acc.violations.append(v)
+    acc.exhaustive = True
+    acc.extra["rooted_enumeration"] = {"max_suffix_length": maxlen, "roots": len(ROOTS)}
+
+
 # ---------------------------------------------------------------- (b) grammar
 
 BREAKS = st.sampled_from(["\n"] * 12 + ["\r\n", "\r", "\x85", " ", " "])
@@ -323,7 +354,11 @@ def block_value(draw, brk):
             extra = draw(st.sampled_from([0, 0, 0, 1, 2, -1]))
             body = draw(st.text(alphabet="abc xyz#:'\"|>-\té", min_size=1, max_size=8))
             lines.append(" " * max(0, base + extra) + body)
-    return header + brk + brk.join(lines) + draw(st.sampled_from(["", brk, brk + brk]))
+    tail = draw(st.sampled_from(["", brk, brk + brk]))
+    if lines and draw(st.integers(0, 3)) == 0:
+        # a final partial line of white space around the block indentation, without a line break
+        tail = brk + " " * max(0, base + draw(st.sampled_from([-1, 0, 0, 1])))
+    return header + brk + brk.join(lines) + tail
 
 
 @st.composite
@@ -422,7 +457,8 @@ def sub_atheris(acc: Acc, shard: int, nshards: int, tier: str, seed: int) -> Non
 
 
 def plan(tier: str) -> list[Sub]:
-    subs = [Sub("enum", sub_enum, 16), Sub("grammar", sub_grammar, 16 if tier == "thorough" else 12)]
+    subs = [Sub("enum", sub_enum, 16), Sub("rooted", sub_enum_rooted, 16),
+            Sub("grammar", sub_grammar, 16 if tier == "thorough" else 12)]
     if tier == "thorough":
         subs.append(Sub("atheris", sub_atheris, 4))
     return subs
